@@ -52,6 +52,8 @@ pub enum Op {
     Next,
     ProcessPrompt,
     Clear,
+    /// `generator = generator.with_prompt(tokens)` in the middle of a history: replaces whatever is pending.
+    SetPrompt(Vec<u32>),
 }
 
 #[derive(Clone, Debug, Serialize, Deserialize)]
@@ -350,7 +352,7 @@ struct GenEngine {
     seeded: u64,
 }
 
-const EXH_OPS: u64 = 5;
+const EXH_OPS: u64 = 6;
 
 fn exh_op(d: u64) -> Op {
     match d {
@@ -358,7 +360,8 @@ fn exh_op(d: u64) -> Op {
         1 => Op::Append(vec![5, 6]),
         2 => Op::Next,
         3 => Op::ProcessPrompt,
-        _ => Op::Clear,
+        4 => Op::Clear,
+        _ => Op::SetPrompt(vec![7, 8]),
     }
 }
 
@@ -391,6 +394,7 @@ fn opname(op: &Op) -> &'static str {
         Op::Next => "next",
         Op::ProcessPrompt => "process_prompt",
         Op::Clear => "clear_prompt",
+        Op::SetPrompt(_) => "with_prompt",
     }
 }
 
@@ -486,7 +490,8 @@ impl Engine for GenEngine {
         let hl = r.urange(1, 40);
         let mut history = Vec::new();
         for _ in 0..hl {
-            history.push(match r.below(10) {
+            history.push(match r.below(11) {
+                10 => Op::SetPrompt((0..r.urange(0, 4)).map(|_| tok(&mut r)).collect()),
                 0 | 1 => Op::Append((0..r.urange(0, 4)).map(|_| tok(&mut r)).collect()),
                 2..=6 => Op::Next,
                 7 => Op::ProcessPrompt,
@@ -571,6 +576,22 @@ impl Engine for GenEngine {
                     }
                     generator.clear_prompt();
                     st.pending.clear();
+                    st.logged = 0;
+                }
+                Op::SetPrompt(t) => {
+                    if any_call {
+                        ctx.count("probe:with_prompt_after_generation");
+                        nontrivial = true;
+                    }
+                    // a panic here (e.g. slicing with a stale length) is a panic of the history
+                    match catch(std::panic::AssertUnwindSafe(|| generator.with_prompt(t))) {
+                        Ok(g) => generator = g,
+                        Err(p) => {
+                            violation = Some(Violation::new("C32/panic/with_prompt", format!("op {i}: with_prompt panicked: {} at {}", p.message, p.location)));
+                            break 'hist;
+                        }
+                    }
+                    st.pending = t.clone();
                     st.logged = 0;
                 }
                 Op::Next | Op::ProcessPrompt => {
